@@ -123,7 +123,7 @@ let run_case op toks =
                       let buf = List.init n (fun k -> zi (1000 + k)) in
                       let els = List.map (fun idx -> match mds_get buf l t e idx with Some a -> zs a | None -> "oob") idxs in
                       [ "el"; string_of_int (List.length els) ] @ els
-                      @ [ "sz"; zs (mds_size t e); b2s (mds_empty t e) ] @ zl (extents_list t e) @ st
+                      @ [ "sz"; zs (mds_size t e); b2s (mds_empty t e) ] @ zl (extents_list t e) @ st @ [ "api"; "0" ]
                     end in
                   join (base @ tail) in
           let sst = List.map (fun k -> spec_stride l xs k) (seq r) in
@@ -136,7 +136,7 @@ let run_case op toks =
                          @ [ string_of_int (List.length so) ] @ zl so in
               let tail = if how = 0 then []
                 else [ "el"; string_of_int (List.length so) ] @ List.map (fun o -> zs (Z.add (zi 1000) o)) so
-                     @ [ "sz"; zs (product xs); b2s (z_eq (product xs) Z0) ] @ zl xs @ zl sst in
+                     @ [ "sz"; zs (product xs); b2s (z_eq (product xs) Z0) ] @ zl xs @ zl sst @ [ "api"; "0" ] in
               join (base @ tail) in
           (m, s)
       | "map_at" ->
@@ -162,6 +162,27 @@ let run_case op toks =
           let m = res_tok (fun s -> join [ "ok"; zs s ]) (lay_stride l t e (nat_of_int rr)) in
           let dom = rr < r && all_repr t xs && repr t (product xs) && repr t (spec_stride l xs rr) in
           (m, if dom then join [ "ok"; zs (spec_stride l xs rr) ] else "na")
+      | "strided_default" ->
+          let m = strided_default t p in
+          let xs = extents_dyn p [] in
+          let idxs = all_indices xs in
+          let strides = List.map (fun k -> strided_stride m (nat_of_int k)) (seq r) in
+          let ml =
+            match opt_all (List.map (strided_map t m) idxs) with
+            | None -> "ub"
+            | Some offs ->
+                if List.exists (fun s -> match s with Ok _ -> false | _ -> true) strides then "contract"
+                else join ([ "ok"; string_of_int r ] @ zl (extents_list t m.st_ext) @ zl m.st_strides
+                           @ List.map (fun s -> match s with Ok v -> zs v | _ -> "?") strides
+                           @ [ string_of_int (List.length offs) ] @ zl offs) in
+          let sst = List.map (fun k -> stride_right xs (nat_of_int k)) (seq r) in
+          let dom = all_repr t xs && repr t (product xs) && all_repr t sst in
+          let sl =
+            if not dom then "na"
+            else
+              let so = List.map (row_major xs) idxs in
+              join ([ "ok"; string_of_int r ] @ zl xs @ zl sst @ zl sst @ [ string_of_int (List.length so) ] @ zl so) in
+          (ml, sl)
       | "strided_all" | "strided_at" ->
           let v = next_wlist t toks in
           let sv = next_wlist t toks in
@@ -228,14 +249,14 @@ let run_case op toks =
             | None -> "ub"
             | Some offs ->
                 join ([ "ok"; (if vec then zs (mda_container_size l t e) else "64"); zs (mds_size t e);
-                        b2s (mds_empty t e); string_of_int (List.length offs) ] @ zl offs) in
+                        b2s (mds_empty t e); string_of_int (List.length offs) ] @ zl offs @ [ "api"; "0" ]) in
           let dom = all_repr t xs && repr t (product xs) in
           let sl =
             if not dom then "na"
             else
               let so = List.map (spec_off l xs) idxs in
               join ([ "ok"; (if vec then zs (product xs) else "64"); zs (product xs);
-                      b2s (z_eq (product xs) Z0); string_of_int (List.length so) ] @ zl so) in
+                      b2s (z_eq (product xs) Z0); string_of_int (List.length so) ] @ zl so @ [ "api"; "0" ]) in
           (ml, sl)
       | _ -> raise Not_found
     end
@@ -479,7 +500,7 @@ let run_case op toks =
         match sp_sub_d parent a c, sp_sub_d (mk_span None Z0 n) a c with
         | Ok r1, Ok r2 ->
             join ([ span_line buf r1; zs n; zs n; zs n; zs r2.s_off ]
-                  @ (if z_lt Z0 n then [ span_line buf r1 ] else []))
+                  @ (if z_lt Z0 n then [ span_line buf r1 ] else []) @ [ "api"; "0" ])
         | Contract, _ | _, Contract -> "contract"
         | _ -> "ub" in
       let dom = z_le a n && (match c with None -> true | Some k -> z_le k (Z.sub n a)) in
@@ -487,7 +508,7 @@ let run_case op toks =
       let sl =
         if dom then
           let s1 = spec_span_line buf a cnt None in
-          join ([ s1; zs n; zs n; zs n; zs a ] @ (if z_lt Z0 n then [ s1 ] else []))
+          join ([ s1; zs n; zs n; zs n; zs a ] @ (if z_lt Z0 n then [ s1 ] else []) @ [ "api"; "0" ])
         else "na" in
       (ml, sl)
     end
